@@ -790,6 +790,19 @@ impl Version {
     based on the number of files in the level.
     */
     fn max_bytes_for_level(level: usize) -> f64 {
+        #[cfg(feature = "verif")]
+        if let Some(level_one_bytes) = crate::verif::level_one_max_bytes() {
+            // Test instrumentation: a smaller level 1 limit (and 10x per deeper level) so that
+            // size triggered compactions of deeper levels happen with small data sets.
+            let mut result = level_one_bytes as f64;
+            let mut remaining = level;
+            while remaining > 1 {
+                result *= 10.;
+                remaining -= 1;
+            }
+            return result;
+        }
+
         // The threshold is calculated as 10x multiples of 1 MiB.
         let starting_multiple_bytes: f64 = 1. * 1024. * 1024.;
         let mut level = level;
